@@ -339,6 +339,14 @@ func (cl *cluster) key() string {
 	for id := 1; id <= cl.nWrites; id++ {
 		ack = append(ack, fmt.Sprint(cl.acked[id]))
 	}
+	if cl.cB != nil {
+		vB := cl.cB.VerifView()
+		st := ""
+		if r := cl.nodes[1].(*RealNode).srv.Replica(); r != nil {
+			st = r.GetCloneStatus()
+		}
+		fmt.Fprintf(&b, "CB replicas=%v ro=%v fe=%v signals=%v clonestatus=%s cloneof=%d\n", vB.Replicas, vB.ReadOnly, vB.FrontendUp, cl.signalsB, st, cl.cloneOf)
+	}
 	fmt.Fprintf(&b, "M writes=%v snaps=%d adds=%d restarts=%d regs=%d reads=%d faults=%d lastsig=%+v\n", ack, cl.nSnaps, cl.nAdds, cl.nRestart, cl.nRegs, cl.nReads, cl.nFaults, cl.lastStartSignal())
 	h := sha1.Sum([]byte(b.String()))
 	cl.lastKeyText = b.String()
@@ -476,6 +484,34 @@ func (cl *cluster) enabled() []string {
 		case "Step":
 			if cl.task != nil && !cl.task.done {
 				out = append(out, "Step")
+			}
+		case "StepX":
+			if cl.taskX != nil && !cl.taskX.done {
+				out = append(out, "StepX")
+			}
+		case "BStart":
+			if cl.cB != nil && cl.taskX == nil && len(cl.signalsB) > 0 {
+				out = append(out, "BStart")
+			}
+		case "BReg":
+			if cl.cB != nil && len(cl.signalsB) == 0 {
+				out = append(out, "BReg")
+			}
+		case "CloneProc":
+			if cl.cB != nil && (cl.task == nil || (cl.task.done && cl.task.killed)) {
+				for k := 1; k <= cl.nSnaps; k++ {
+					if cl.cloneOf == 0 || cl.cloneOf == k {
+						out = append(out, fmt.Sprintf("CloneProc:%d", k))
+					}
+				}
+			}
+		case "SrcDown":
+			if !cl.down[0] && faultsLeft(1) {
+				out = append(out, "SrcDown")
+			}
+		case "SrcUp":
+			if cl.down[0] {
+				out = append(out, "SrcUp")
 			}
 		case "Kill":
 			if cl.task != nil && !cl.task.done && (c.MaxRestarts == 0 || cl.nRestart < c.MaxRestarts) {
